@@ -617,6 +617,16 @@ def run_inproc(ctx, exe, inputs, wd, tag, timeout_each=20):
         if cur is None:          # died between inputs
             ctx.broken.append(f"hx_fuzz died without a current input (rc={rc})")
             break
+        if rc == 124 and timeout_each < 100:
+            # slow machine or really stuck?  the same input alone, with eight times the limit (the CLI
+            # route does the same); only an input that is still running then is reported as a hang
+            o2, a2 = run_inproc(ctx, exe, [inputs[cur]], wd, f"{tag}_slow{cur}", timeout_each=timeout_each * 8)
+            outcomes[cur] = o2[0]
+            if 0 in a2:
+                accepts[cur] = a2[0]
+            ctx.cov.setdefault("slow_inputs_retried", []).append(f"{inputs[cur][1]} -> {o2[0]}")
+            start = cur + 1
+            continue
         err = p.stderr.decode("utf-8", "replace") if rc != 124 else ""
         how = "timeout" if rc == 124 else ("signal-" + signal.Signals(-rc).name if rc < 0 else f"exit-{rc}")
         pa = [l for l in err.splitlines() if l.startswith("PANIC-AT\t")]
